@@ -49,10 +49,12 @@ def upstream_layout(job, cid, k):
     return sorted(out), sorted(seen)
 
 
-def evaluate(pool, lane, job, hashseed=None):
+def evaluate(pool, lane, job, use_ref_for_session=False):
     """Run the session on the lane's session zygote and every client alone on the lane's reference
     zygote; return (findings, stats).  A finding: {'class', 'cid', 'k', 'op', 'message', 'detail'}."""
     ref_z, ses_z = pool.lanes[lane]
+    if use_ref_for_session:
+        ses_z = ref_z
     res = ses_z.run(job)
     findings = []
     stats = collections.Counter()
